@@ -165,6 +165,15 @@ func checkC07(c *Ctx) {
 		c.Fatal("model checking FormatText.tla failed: %v\n%s", err, tail(mres.Output, 2500))
 		return
 	}
+	if !c.Quick() {
+		// the same invariants with symbolic widths and parameters (Apalache)
+		ok, msg := runFormatSym(c, false)
+		c.CovSet("symbolic_widths", msg)
+		if !ok {
+			c.Fatal("FormatTextSym: %s", msg)
+			return
+		}
+	}
 	r := NewRand(c.Seed*2477 + 7)
 	var recs []map[string]interface{}
 	describe := map[string]string{}
